@@ -714,6 +714,18 @@ impl SourceLocation for CompoundList {
     }
 }
 
+impl CompoundList {
+    /// Returns the text that must follow this list when a keyword (`then`, `do`) comes next:
+    /// a `;`, unless the list already ends with a `&` separator.
+    fn terminator_before_keyword(&self) -> &'static str {
+        if matches!(self.0.last(), Some(CompoundListItem(_, SeparatorOperator::Async))) {
+            ""
+        } else {
+            ";"
+        }
+    }
+}
+
 impl Display for CompoundList {
     fn fmt(&self, f: &mut std::fmt::Formatter<'_>) -> std::fmt::Result {
         for (i, item) in self.0.iter().enumerate() {
@@ -794,7 +806,12 @@ impl SourceLocation for IfClauseCommand {
 
 impl Display for IfClauseCommand {
     fn fmt(&self, f: &mut std::fmt::Formatter<'_>) -> std::fmt::Result {
-        writeln!(f, "if {}; then", self.condition)?;
+        writeln!(
+            f,
+            "if {}{} then",
+            self.condition,
+            self.condition.terminator_before_keyword()
+        )?;
         write!(
             indenter::indented(f).with_str(DISPLAY_INDENT),
             "{}",
@@ -835,7 +852,11 @@ impl Display for ElseClause {
     fn fmt(&self, f: &mut std::fmt::Formatter<'_>) -> std::fmt::Result {
         writeln!(f)?;
         if let Some(condition) = &self.condition {
-            writeln!(f, "elif {condition}; then")?;
+            writeln!(
+                f,
+                "elif {condition}{} then",
+                condition.terminator_before_keyword()
+            )?;
         } else {
             writeln!(f, "else")?;
         }
@@ -980,7 +1001,13 @@ impl SourceLocation for WhileOrUntilClauseCommand {
 
 impl Display for WhileOrUntilClauseCommand {
     fn fmt(&self, f: &mut std::fmt::Formatter<'_>) -> std::fmt::Result {
-        write!(f, "{}; {}", self.0, self.1)
+        write!(
+            f,
+            "{}{} {}",
+            self.0,
+            self.0.terminator_before_keyword(),
+            self.1
+        )
     }
 }
 
